@@ -33,6 +33,8 @@ class Agg:
         self.evaluations += 1
         for c in ctx.classes:
             self.classes[c] = self.classes.get(c, 0) + 1
+        for c, n in getattr(ctx, 'counters', {}).items():
+            self.classes[c] = self.classes.get(c, 0) + n
         jc = None
         if ctx.nontrivial:
             self.nt_hashes.add(case_hash(case))
